@@ -198,6 +198,19 @@ class Session:
         self.tss.append(TypeSystem(add_document_annotation_type=o.get("doc", True)))
         return len(self.tss) - 1
 
+    def op_ts_to_xml(self, o):
+        from harness import refio
+        text = self.tss[o["ts"]].to_xml()
+        self.last_text = text
+        return refio.read_ts_xml(text)
+
+    def op_ts_load_xml(self, o):
+        from cassis import load_typesystem
+        from harness import refio
+        ts = load_typesystem(refio.write_ts_xml(o["desc"], o.get("layout")))
+        self.tss.append(ts)
+        return len(self.tss) - 1
+
     def op_ts_merge(self, o):
         from cassis import merge_typesystems
         ts = merge_typesystems(*[self.tss[i] for i in o["inputs"]])
@@ -369,6 +382,21 @@ class Session:
         self.cas_ts.append(len(self.tss) - 1)
         self.handles.append((len(self.cass) - 1, cas))
         return len(self.handles) - 1
+
+    def op_conv_chain(self, o):
+        from cassis import load_cas_from_json, load_cas_from_xmi
+        from harness import dump
+        ci, h = self.handles[o["h"]]
+        ts = self.tss[self.cas_ts[ci]]
+        if o["kind"] == "xmi-json":
+            c1 = load_cas_from_xmi(h.to_xmi(), typesystem=ts)
+            js = c1.to_json()
+            c2 = load_cas_from_json(js) if o.get("embedded") else load_cas_from_json(js, typesystem=ts)
+        else:
+            js = h.to_json()
+            c1 = load_cas_from_json(js) if o.get("embedded") else load_cas_from_json(js, typesystem=ts)
+            c2 = load_cas_from_xmi(c1.to_xmi(), typesystem=c1.typesystem)
+        return [{"ok": dump.dump_cas(c1)}, {"ok": dump.dump_cas(c2)}]
 
     def op_cas_dump(self, o):
         from harness import dump
